@@ -81,7 +81,7 @@ pub fn judge_contents_ctx(model: &Model, got: &BTreeMap<Key, Val>, lo: u64, hi: 
 	// explanation predicate "post_wal_failure_not_undone": commits that returned an error
 	// after their WAL record had been appended are replayed by recovery
 	if v.explained.is_none() {
-		let ghost = |c: &crate::model::Commit| c.status == crate::model::Status::Failed;
+		let ghost = |c: &crate::model::Commit| c.status == crate::model::Status::Failed && c.ghost_ok;
 		if model.commits.iter().any(|c| ghost(c)) {
 			let mut keys: Vec<Key> = model.all_keys();
 			for k in got.keys() {
